@@ -50,6 +50,7 @@ type c08Pools struct {
 	twinFirst    int
 	twinGroups   [][2]int
 	lengthGroups [][2]int
+	crossGroups  [][2]int
 }
 
 var (
@@ -210,6 +211,20 @@ func c08Pool() *c08Pools {
 				})
 			}
 			c08P.lengthGroups = append(c08P.lengthGroups, [2]int{first, len(c08P.files) - 1})
+		}
+		// Cross pairs: a message type that one file type holds as a slice and another as a single
+		// message (lap: activity / course; ...). First the File with the slice, then the File with
+		// the single message that has the very same fields set: what Encode worked out for the one
+		// must not reach the other. Every history encodes one pair in that order.
+		for pi, cp := range lib.CrossPairs() {
+			for v := 0; v < 2; v++ {
+				cp, seed := cp, uint64(pi*2+v)
+				first := len(c08P.files)
+				c08P.files = append(c08P.files,
+					func() *fit.File { return lib.CrossFile(cp, seed, true, 3) },
+					func() *fit.File { return lib.CrossFile(cp, seed, false, 1) })
+				c08P.crossGroups = append(c08P.crossGroups, [2]int{first, first + 1})
+			}
 		}
 	})
 	return &c08P
@@ -515,6 +530,14 @@ func c08History(h uint64) []string {
 		for _, i := range rng.Perm(lg[1] - lg[0] + 1) {
 			ins = append(ins, fmt.Sprintf("E:%d:%d", lg[0]+i, rng.Intn(2)))
 		}
+		calls = append(calls[:pos], append(ins, calls[pos:]...)...)
+	}
+	// one cross pair per history: the slice-holding File, then the single-message one
+	if len(p.crossGroups) > 0 {
+		cg := p.crossGroups[rng.Intn(len(p.crossGroups))]
+		pos := rng.Intn(len(calls))
+		a := rng.Intn(2)
+		ins := []string{fmt.Sprintf("E:%d:%d", cg[0], a), fmt.Sprintf("E:%d:%d", cg[1], a)}
 		calls = append(calls[:pos], append(ins, calls[pos:]...)...)
 	}
 	// one twin group per history: the valid look-alikes, then the stream that must be rejected
